@@ -72,7 +72,11 @@ CHECKS.update({
             'reason ledger on seeded histories with every end cause, handler '
             'exceptions injected, final silence past all timeouts, then '
             'probes of dead ids; all ordered pairs of six end causes at one '
-            'virtual instant on every transport mode under several schedules.',
+            'virtual instant on every transport mode under several schedules '
+            'and under stateless DFS over all cooperative schedules (leaf bound; '
+            'evidence counts exhausted trees); handlers that fail (Exception, '
+            'BaseException-only, TypeError), suspend, or have the legacy form; '
+            'a pre-emptive tier (OS threads + line-level pre-emption).',
             'pre-emptive interleavings inside close() only in the thorough '
             'pre-emption tier; reasons of timing-caused ends are a set',
             'C05', 'simT+simA'),
@@ -83,7 +87,8 @@ CHECKS.update({
             'Fault enumeration of the handshake: 12x12 frame pairs x 4 closure '
             'points x 2 closure conventions x 5 concurrent activities x '
             'allow_upgrades x transports x 2 servers (69 120 cells, all in '
-            'thorough).', 'probe = text frame 2probe, UPGRADE = any type-5 '
+            'thorough), cells with concurrent activity again under seeded random '
+            'schedules, three spellings of the handshake headers.', 'probe = text frame 2probe, UPGRADE = any type-5 '
             'packet', 'C06', 'simT+simA'),
     'C07': ('exploration',
             'timing checker on virtual timestamps (PING schedule, accuracy, '
@@ -99,7 +104,11 @@ CHECKS.update({
             'check against a scripted server; enumeration of server faults x '
             'enders x cycles',
             'Every server behaviour at connect x transport x probe outcome x '
-            'way of ending x 1..3 connect cycles for both real clients.',
+            'way of ending (14 enders incl. in-flight POST, dead write loop then a '
+            'burst, refused POST with polls still answered, garbage from the '
+            'server) x 1..3 connect cycles for both real clients, plain / '
+            'coroutine / legacy handler forms; a pre-emptive tier for the '
+            'threaded client.',
             'fake transports at the requests / websocket-client / aiohttp '
             'call boundary honour time-outs in virtual time', 'C08',
             'cliT+cliA'),
@@ -116,7 +125,9 @@ CHECKS.update({
             'Real Client/AsyncClient connected to real Server/AsyncServer '
             '(asyncio side through the real ASGI adapter) under one virtual '
             'clock: bursts of 1..40 each way, 31-cycle idle periods, either '
-            'side ending, three transport choices, four heartbeat settings.',
+            'side ending, three transport choices, six heartbeat settings, '
+            'seeded network latency per hop and server sends racing with the '
+            'client\'s connect / upgrade sequence.',
             'cross pairs run an asyncio loop as one task of the thread '
             'scheduler (bridge); fake transports stand in for the network',
             'C10', 'pairs'),
@@ -155,8 +166,13 @@ CHECKS.update({
             'automaton) + scheduler hang detector with stack witness + '
             'escaped-exception capture',
             'Method x session state x body fault x transport x JSONP x server '
-            'and the API calls in every session state; completion is decided '
-            'as bounded progress in virtual time.',
+            'and the API calls in every session state; unusual-but-legal '
+            'requests (undecodable header / query bytes, chunked ASGI bodies, '
+            'client gone before its body was read); disconnect() with a slow '
+            'handler and a concurrent poll; a pre-emptive tier (requests and '
+            'API calls racing on one session, each alarm re-run cooperatively '
+            'as a control); completion is decided as bounded progress in '
+            'virtual time.',
             'WebSocket handshake requests are exempt from the HTTP response '
             'oracle', 'C15', 'simT+simA'),
     'C16': ('exploration',
@@ -181,7 +197,9 @@ CHECKS.update({
             'the scenario queued',
             'Seeded payload alphabets x Accept-Encoding shapes x compression '
             'x thresholds around the measured body size x JSONP index x open '
-            'and poll responses x both servers.',
+            'and poll responses x both servers, plus sequences of 3..9 '
+            'responses (incl. POST / OPTIONS acknowledgements) from one server '
+            'instance.',
             'offered = token with q absent or > 0', 'C19', 'simT+simA'),
     'C20': ('exploration',
             'reference router + downstream spies + sys.addaudithook open '
